@@ -245,6 +245,9 @@ func chaosPass(c *choice.Src, o engine.Opt, out *engine.Out, skip bool) *chaosWo
 		return cw
 	}
 	w.n = 2 + c.Choose(4, "n")
+	if c.Bool(1, 24, "n.larger") {
+		w.n = 9 + c.Choose(12, "n.value") // call histories on instances of larger groups
+	}
 	w.t = 1 + c.Choose(w.n-1, "t")
 	w.dealer = c.Choose(w.n, "dealer")
 	w.nodes = make([]*Node, w.n)
